@@ -201,4 +201,10 @@ def _nat():
     return {"ok": not r["violated"], "observation": r}
 
 
-NATIVE = [("native:late-starting-tag", _nat)]
+def _nat2():
+    import contracts.c34_native as n
+    r = n.small_domain()
+    return {"ok": not r["violated"], "observation": r}
+
+
+NATIVE = [("native:late-starting-tag", _nat), ("native:every-plot-log-of-a-small-domain-against-the-statement", _nat2)]
